@@ -153,25 +153,37 @@ func (a *APKExpanded) PackageData() (*os.File, error) {
 		return nil, fmt.Errorf("parsing %q: %w", a.PackageFile, err)
 	}
 
-	uf, err = os.Create(a.TarFile)
+	// Decompress into a temporary file next to the final name and publish it with an
+	// atomic rename: a build that is killed (or merely still running) in here must not
+	// leave a partially written file under a name that other builds open as a cache hit.
+	uf, err = os.CreateTemp(filepath.Dir(a.TarFile), "*.tmp")
 	if err != nil {
 		return nil, fmt.Errorf("opening tar file %q: %w", a.TarFile, err)
 	}
+	_ = uf.Chmod(os.FileMode(0o644))
 
 	buf := pooledSlice()
 	defer slicePool.Put(buf)
 	verifhook.Point("rebuild.created")
 
 	if _, err := io.CopyBuffer(uf, zr, buf); err != nil {
+		uf.Close()
+		_ = os.Remove(uf.Name())
 		return nil, fmt.Errorf("decompressing %q: %w", a.PackageFile, err)
 	}
 
 	verifhook.Point("rebuild.copied")
 
 	if err := uf.Close(); err != nil {
+		_ = os.Remove(uf.Name())
 		return nil, fmt.Errorf("closing %q: %w", a.TarFile, err)
 	}
 	verifhook.Point("rebuild.closed")
+
+	if err := os.Rename(uf.Name(), a.TarFile); err != nil {
+		_ = os.Remove(uf.Name())
+		return nil, fmt.Errorf("publishing %q: %w", a.TarFile, err)
+	}
 
 	return os.Open(a.TarFile)
 }
